@@ -131,7 +131,7 @@ def _valid_from(c, p, patt, det, t, k, cols=None):
 
 def _incr(c, t, n):
     """strictly increasing: a < b  =>  t[a] < t[b]"""
-    return c.forall2(0, n, lambda a, b: c.implies(a < b, lambda: t[a] < t[b]), pattern=(lambda a, b: (t[a], t[b])) if c.mode == "sym" else None)
+    return c.forall(0, n, lambda b: c.forall(0, b, lambda a: t[a] < t[b], pattern=_pj(c, t)), pattern=_pj(c, t))
 
 
 def _occ(c, p, patt, t, cols=None):
@@ -141,8 +141,8 @@ def _occ(c, p, patt, t, cols=None):
         c.len(t) == n,
         c.forall(0, n, lambda j: c.and_(t[j] >= 0, t[j] < N), pattern=_pj(c, t)),
         _incr(c, t, n),
-        c.forall2(0, n, lambda a, b: c.iff(p[a] < p[b], _at(c, patt, t[a]) < _at(c, patt, t[b])),
-                  pattern=(lambda a, b: (t[a], t[b])) if c.mode == "sym" else None),
+        # order-isomorphic: every pair a < b (for distinct entries the symmetric statement is the same fact)
+        c.forall(0, n, lambda b: c.forall(0, b, lambda a: c.iff(p[a] < p[b], _at(c, patt, t[a]) < _at(c, patt, t[b])), pattern=_pj(c, t)), pattern=_pj(c, t)),
     ]
     if cols is not None:
         parts.append(c.forall(0, n, lambda j: _at(c, cols[1], t[j]) == cols[0][j], pattern=_pj(c, t)))
@@ -155,7 +155,8 @@ def _lexlt(c, a, b, n):
 
 
 def _roweq(c, r, t, n):
-    return c.and_(c.len(r) == n, c.forall(0, n, lambda j: r[j] == t[j], pattern=_pj(c, r)))
+    both = (lambda j: [r[j], t[j]]) if c.mode == "sym" else None  # either side's entry triggers the equation
+    return c.and_(c.len(r) == n, c.forall(0, n, lambda j: r[j] == t[j], pattern=both))
 
 
 def _rowfun(rows):
@@ -175,6 +176,11 @@ def _sorted_rows(c, rows, n):
 
 def _listed(c, rows, t, n):
     return c.exists(0, c.len(rows), lambda m: _roweq(c, rows[m], t, n))
+
+
+def _listed_same(c, rows, t):
+    """t is one of the rows (as a tuple)"""
+    return c.exists(0, c.len(rows), lambda m: c.same_tuple(rows[m], t))
 
 
 # --------------------------------------------------------------------------- inner contract
@@ -319,6 +325,8 @@ def _post(c, p, patt, result, cols):
         c.forall(0, c.len(result), lambda m: _occ(c, p, patt, result[m], cols)),
         _sorted_rows(c, result, n),
         c.forall_tuple(n, lambda t: c.implies(_occ(c, p, patt, t, cols), lambda: _listed(c, result, t, n)), universe=(-1, c.len(patt) + 1) if c.mode == "run" else None),
+        # the same completeness statement with equality of tuples (by extensionality)
+        c.forall_tuple(n, lambda t: c.implies(_occ(c, p, patt, t, cols), lambda: _listed_same(c, result, t)), universe=(-1, c.len(patt) + 1) if c.mode == "run" else None),
     )
 
 
